@@ -621,7 +621,9 @@ impl NameResolution {
     ) -> hir::ExprId {
         match expr {
             ast::Expr::EPath { path, astptr } => {
-                if let Some(constructor) = self.constructor_path_for(path, ctx) {
+                if local_for_path(path, env).is_none()
+                    && let Some(constructor) = self.constructor_path_for(path, ctx)
+                {
                     return self.alloc_expr_with_ptr(
                         hir_table,
                         *astptr,
@@ -850,10 +852,34 @@ impl NameResolution {
                 args,
                 astptr,
             } => {
-                let new_args = args
+                let new_args: Vec<_> = args
                     .iter()
                     .map(|arg| self.resolve_expr(arg, env, ctx, hir_table))
                     .collect();
+                // The lowering decides by name alone; a binder in scope is the innermost
+                // meaning of the name.
+                if let Some(local_id) = local_for_path(constructor, env) {
+                    let local = self.alloc_expr_with_ptr(
+                        hir_table,
+                        *astptr,
+                        hir::Expr::ENameRef {
+                            res: hir::NameRef::Local(local_id),
+                            hint: constructor.display(),
+                            astptr: Some(*astptr),
+                        },
+                    );
+                    if new_args.is_empty() {
+                        return local;
+                    }
+                    return self.alloc_expr_with_ptr(
+                        hir_table,
+                        *astptr,
+                        hir::Expr::ECall {
+                            func: local,
+                            args: new_args,
+                        },
+                    );
+                }
                 let constructor = self.normalize_constructor_path(constructor, ctx);
                 self.alloc_expr_with_ptr(
                     hir_table,
@@ -1014,6 +1040,7 @@ impl NameResolution {
             }
             ast::Expr::ECall { func, args, astptr } => {
                 if let ast::Expr::EPath { path, .. } = func.as_ref()
+                    && local_for_path(path, env).is_none()
                     && let Some(constructor) = self.constructor_path_for(path, ctx)
                 {
                     let new_args = args
@@ -1603,6 +1630,15 @@ impl NameResolution {
             astptr: param.astptr,
         }
     }
+}
+
+/// The binder in scope that a one-segment path names, if any: the innermost binder of a
+/// name wins over a constructor of the same name.
+fn local_for_path(path: &ast::Path, env: &ResolveLocalEnv) -> Option<hir::LocalId> {
+    if path.len() != 1 {
+        return None;
+    }
+    env.rfind(path.last_ident()?)
 }
 
 fn type_param_set(params: &[ast::AstIdent]) -> HashSet<String> {
